@@ -83,6 +83,9 @@ def one(s):
             if l["type"] in ("headpump", "powerpump"):
                 act = C.ControlAction(link, "status", w.network.LinkStatus.Closed)
                 wn.add_control("off%d" % k, C.Control(C.SimTimeCondition(wn, "=", 2 * s["H"]), act))
+            if l["type"] == "powerpump" and s.get("power_control"):
+                # a control that changes the power of a pump during the run
+                wn.add_control("pow%d" % k, C.Control(C.SimTimeCondition(wn, "=", s["H"]), C.ControlAction(link, "power", l["power"] * 1.5)))
         dicts = [canon(wn.to_dict())]
         cp = copy.deepcopy(wn)
         results = []
@@ -119,6 +122,11 @@ def one(s):
     return {"scn": s, "dicts": dicts, "kinds": kinds, "runs": [rows_of(s, r) for r in results], "copy": rows_of(s, rc)}
 
 
+def ptag(s):
+    """input class of the open finding: a control whose action writes the power of a pump"""
+    return " [a control changes the power of a pump]" if s.get("power_control") and any(l["type"] == "powerpump" for l in s["links"]) else ""
+
+
 def main(tier, replay):
     ck = common.Check("C11", "model_checking", tier)
     rnd = random.Random(common.SEED + 1111)
@@ -140,6 +148,7 @@ def main(tier, replay):
             s["cycles"] = rnd.choice([1, 2, 2, 3])
             s["epanet"] = rnd.random() < 0.4
             s["reuse_sim"] = i % 3 == 0
+            s["power_control"] = i % 4 == 1
             scns.append(s)
     with cf.ProcessPoolExecutor(max_workers=common.NCPU) as ex:
         outs = [o for o in ex.map(one, scns, chunksize=4) if o is not None]
@@ -173,14 +182,15 @@ def main(tier, replay):
         _, s, kind, d0, d1 = ms[gi]
         paths = diff_paths(d0, d1)[:4]
         import re
-        ck.violation("C11.def_unchanged", "%s :: %s" % (kind.rstrip(" 0123456789"), ", ".join(re.sub(r"/[A-Z]+\d+", "/<name>", p) for p in paths)),
-                     {"scn": s, "paths": paths})
+        ck.violation("C11.def_unchanged", "%s :: %s%s" % (kind.rstrip(" 0123456789"), ", ".join(re.sub(r"/[A-Z]+\d+", "/<name>", p) for p in paths),
+                                                        ptag(s)), {"scn": s, "paths": paths})
     v2 = common.run_cases("Agree", agree, check=ck)
     ma = [m for m in meta if m[0] == "agree"]
     for gi, payload in v2:
         _, s, kind, _, _ = ma[gi]
         for cl in common.parse_set(payload):
-            ck.violation(cl, "%s :: %s" % (kind.rstrip(" 0123456789") if "run" in kind else kind, " ".join(sorted(netgen.features_of(s)))), {"scn": s})
+            ck.violation(cl, "%s :: %s%s" % (kind.rstrip(" 0123456789") if "run" in kind else kind, " ".join(sorted(netgen.features_of(s))),
+                                             ptag(s)), {"scn": s})
     ck.cov["evaluations"] = len(same) + len(agree)
     ck.cov["traces_validated_against_impl"] = ck.cov["counters"].get("models", 0)
     ck.cov["rule"] = ("random feature-rich models (netgen) with extra time controls on valve settings and pump statuses, leaks, "
